@@ -439,6 +439,63 @@ def rule_r3(ctx: Ctx) -> None:
     ctx.check(repr(ge) == repr(("Rational", 64)), dl._cls_.short + "._attribute", "delimited: _extent_ -> %r" % (ge,), "`T._extent_` of a delimited type is the declared extent", dl._cls_.module.relpath)
 
 
+def rule_r5_documents(ctx: Ctx) -> None:
+    """`_offset_` where a definition text asks for it: the parser's visitors evaluated over abstract texts (as in C03.R6) into
+    the repository's own builder; every `@print _offset_` line must see exactly the fields and paddings above it in its
+    section - whether or not they have been committed yet (comment blocks, blank lines, a leading padding, the service
+    marker)"""
+    from itertools import product
+
+    from .parser_common import Line, ParserModel, read_lines, text_of
+
+    ctx.rule("C08.R5", "`_offset_` evaluated at any line of an abstract definition text (all sequences of field / padding / constant / comment / empty lines around it, messages and services, both endings) is the length of exactly the fields and paddings above it in its section", min_instances=1)
+    pm = ParserModel(ctx)
+    alphabet = ["F", "P", "K", "C", "B", "O"]
+    bound = 3
+    bodies = [list(sq) for L in range(1, bound + 1) for sq in product(alphabet, repeat=L) if "O" in sq]
+    bodies += [["P", "C", "O"], ["C", "P", "O", "F"], ["B", "P", "B", "O"], ["P", "P", "C", "O"], ["F", "C", "C", "B", "O"]]
+
+    def mk(seq: Any, prefix: str) -> List[Any]:
+        return [Line("C", comment=" c%d" % i) if k == "C" else Line(k, "%s%d" % (prefix, i)) for i, k in enumerate(seq)]
+
+    scripts: List[List[Any]] = []
+    for body in bodies:
+        scripts.append(mk(body, "a") + [Line("D")])
+        scripts.append([Line("D")] + mk(body, "a"))
+        if len(body) <= 2:
+            scripts.append([Line("D"), Line("F", "x")] + [Line("M")] + mk(body, "r") + [Line("D")])
+            scripts.append(mk(body, "q") + [Line("D"), Line("M")] + mk(body, "r") + [Line("D")])
+    bad = []
+    n = 0
+    for lines in scripts:
+        for final_eol in (False, True):
+            r = read_lines(pm, lines, final_eol)
+            n += 1
+            want, got = [], []
+            for idx, v in r.offsets:
+                above = 0
+                for l2 in lines[:idx][::-1]:
+                    if l2.kind == "M":
+                        break
+                    above += 1 if l2.kind in ("F", "P") else 0
+                want.append((idx, frozenset([8 * above])))
+                t = v
+                for _ in range(6):
+                    if getattr(t, "_kind_", None) in ("Set", "Rational") and getattr(t, "payload", None):
+                        t = t.payload[0]
+                    elif isinstance(t, (tuple, list)) and len(t) == 1:
+                        t = t[0]
+                    elif isinstance(t, tuple) and len(t) == 2 and t[0] == "ELEMENTS-OF":
+                        t = t[1]
+                got.append((idx, t[1] if isinstance(t, tuple) and len(t) == 2 and t[0] == "leaf" else repr(v)[:80]))
+            n_o = sum(1 for l2 in lines if l2.kind == "O")
+            if r.raised or got != want or len(got) != n_o:
+                bad.append({"text": text_of(lines, final_eol), "_offset_ read at line": [(i, sorted(x) if isinstance(x, frozenset) else x) for i, x in got], "expected": [(i, sorted(x)) for i, x in want], "raised": r.raised})
+    ctx.count(n)
+    fn = ctx.func("_data_type_builder.DataTypeBuilder.resolve_top_level_identifier")
+    ctx.check(not bad, "_parser._ParseTreeProcessor x _data_type_builder.DataTypeBuilder", "`_offset_` at every line of %d abstract texts" % n, "`_offset_` evaluated at any point of a structure is the set of lengths of everything before that point", fn.where(), bad[:3])
+
+
 def rule_r4_keys(ctx: Ctx) -> None:
     from . import approx_keys
 
@@ -450,5 +507,6 @@ def run(ctx: Ctx) -> None:
     ctx.attempt(rule_r1_r2, ctx)
     ctx.attempt(rule_r3, ctx)
     ctx.attempt(rule_r4_keys, ctx)
+    ctx.attempt(rule_r5_documents, ctx)
     ctx.assume("the bit-length-set algebra is exact (C01); alignments are powers of two and the delimiter header is a multiple of the alignment (C02)")
     ctx.undecided("numerical equality of the offset sets with the encoder's positions (only the agreement of the traces / terms is decided)")
